@@ -141,6 +141,13 @@ def gen(rng, tier):
         b = [[str(c) if not isinstance(c, str) else c for c in (row if isinstance(row, list) else [row])] for row in (b if isinstance(b, list) else [[b]])]
         b = [[c if isinstance(c, str) else "x" for c in row] for row in b]
         cases.append({"f": a, "t": b, "opts": {}, "via": "csv"})
+    # a list and the same list with two unequal elements swapped (all-leaf lists and mixed ones)
+    for _ in range(n // 3):
+        a = [rng.choice(SCALARS) if rng.random() < 0.8 else gen_doc(rng, 2) for _ in range(rng.randint(2, 5))]
+        i, j = rng.sample(range(len(a)), 2)
+        b = list(a)
+        b[i], b[j] = b[j], b[i]
+        cases.append({"f": a, "t": b, "opts": rng.choice(OPT_SETS)})
     # equal documents (possibly key-permuted)
     for _ in range(n // 6):
         a = gen_doc(rng)
@@ -625,6 +632,12 @@ def monitor(case, obs):
             raw.append(("C02", "differ-but-zero-annotated", "documents differ but edited_cost() is 0"))
         if de != obs["eq"]:
             raw.append(("C02", "node-eq-vs-data-eq", f"tree equality is {obs['eq']} but the documents are {'equal' if de else 'different'} as data"))
+    # ---- C08 (second sentence): swapping two unequal elements of a list always yields a non-zero cost
+    if isinstance(root, int) and root == 0 and isinstance(case["f"], list) and isinstance(case["t"], list) \
+            and len(case["f"]) == len(case["t"]) and de is False:
+        diffs = [i for i, (x, y) in enumerate(zip(case["f"], case["t"])) if data_eq(x, y) is False]
+        if len(diffs) == 2 and data_eq(case["f"][diffs[0]], case["t"][diffs[1]]) and data_eq(case["f"][diffs[1]], case["t"][diffs[0]]):
+            raw.append(("C08", "list-swap-zero", f"swapping elements {diffs[0]} and {diffs[1]} of a list costs 0"))
     # ---- C08: key permutation invariance
     if "perm" in obs and isinstance(root, int):
         p = obs["perm"]
